@@ -388,7 +388,7 @@ def run(ctx):
   space, model = fnspec.enumerate_inputs("MC_Rename", cfg, ctx.workdir, workers=PAR)
   items = _items(space)
   nform = [sum(1 for c in d["cols"].values() if c["type"] == "Any") for d in space["docs"]]
-  ctx.log("TLC enumerated %d rename steps over a document with %s formula columns (%d distinct states) in %.1fs"
+  ctx.log("TLC enumerated %d rename steps over documents with %s formula columns (%d distinct states) in %.1fs"
           % (len(items), nform, model["distinct"], model.get("wall", 0)))
   extra = random_inputs(ctx.seed, 30 if ctx.quick else 480)
   todo = items + extra
@@ -414,8 +414,8 @@ def run(ctx):
     "rule": "TLC enumerates the rename steps of %s (12 column targets x 5 paths and 2 table targets x 3 paths x 13 "
             "requested-name classes%s) over documents whose formula columns cover $col, rec.col, ref chains, "
             "lookupRecords/lookupOne keywords, order_by strings and tuples, .all, comprehensions, "
-            "PREVIOUS/NEXT/RANK arguments, f-strings, local variables and decoys; plus %d seeded random documents "
-            "and steps; an evaluation is one formula text judged against the rendering of its tree under the new "
+            "PREVIOUS/NEXT/RANK arguments, f-strings, local variables and decoys; plus %d seeded random steps "
+            "over random documents of the same family; an evaluation is one formula text judged against the rendering of its tree under the new "
             "names; non-trivial = a step after which at least one formula text differs from before"
             % (cfg, "" if not ctx.quick else "; reduced product", len(extra)),
     "samples": [{k: v for k, v in t.items() if k != "sch"} for t in items[:2] + extra[:1]],
